@@ -266,6 +266,26 @@ def check_calls(plan, rt, strict=True):
             out.append(V("wrong_root_value", "resolver at %r saw info.root_value %r, the request's root value is %r" % (
                 list(path), root, plan.root_value)))
             break
+    cfg = getattr(rt, "engine_cfg", None) or {}
+    if cfg.get("dr"):
+        # the engine was cooked with a custom default resolver: it (not the built-in one) resolves
+        # every field that has no resolver of its own, once
+        times = {}
+        for p in rt.default_calls:
+            times[p] = times.get(p, 0) + 1
+        nulls = visible_nulls(plan)
+        for path in getattr(plan, "default_sites", {}):
+            n = times.get(path, 0)
+            if n > 1:
+                out.append(V("resolver_called_twice", "custom default resolver called %d times at %r" % (n, list(path))))
+            elif n == 0 and strict and not any(q == ROOT or (q != path and _is_prefix(q, path)) for q in nulls):
+                out.append(V("custom_default_resolver_not_used", "the field at %r has no resolver of its own and the engine's "
+                             "custom_default_resolver was not called for it" % (list(path),)))
+                break
+    if (cfg.get("dtr") and strict and not rt.default_type_calls and not rt.override and not rt.type_override
+            and not getattr(plan, "faults_fired", None) and not plan.errors and getattr(plan, "default_type_resolutions", 0)):
+        out.append(V("custom_default_type_resolver_not_used", "%d abstract positions without a type resolver of their own "
+                     "were completed and the engine's custom_default_type_resolver was never called" % plan.default_type_resolutions))
     if strict:
         nulls = visible_nulls(plan)
         for path, c in expected.items():
